@@ -170,7 +170,6 @@ class RefWorld:
         if e is None:
             return ('raise',)
         d = dict(e)
-        d.pop('contraction', None)
         kind = d.pop('Class')
         return ('ok', (kind, d))
 
